@@ -129,7 +129,7 @@ def dec_data(d):
 def gen_const(rng, cls, N):
     c = {}
     if cls == "pburg":
-        c["criteria"] = rng.choice([None, None, None, "AIC", "FPE"])
+        c["criteria"] = rng.choice([None, None, None, "AIC", "FPE", "AICc", "KIC", "AKICc", "MDL"])
     elif cls == "pyule":
         c["norm"] = rng.choice(["biased", "biased", "unbiased"])
     elif cls in ("pmusic", "pev"):
